@@ -20,19 +20,19 @@ const modPath = "github.com/arm-doe/sts"
 
 // Engine holds the loaded, type-checked program and its SSA form.
 type Engine struct {
-	RepoDir   string
-	Fset      *token.FileSet
-	Pkgs      map[string]*packages.Package // by import path (module packages only)
-	Prog      *ssa.Program
-	SSAPkgs   map[string]*ssa.Package
-	Funcs     []*ssa.Function          // every function of the module (methods, closures, instances), minus package mock
-	byName    map[string]*ssa.Function // short name -> function
-	parents   map[*ssa.Function]*ssa.MakeClosure
-	vtaGraph  *callgraph.Graph
-	chaGraph  *callgraph.Graph
-	Excluded  []string
-	canonMemo map[ssa.Value]string
-	fnInfos   map[*ssa.Function]*fnInfo
+	RepoDir    string
+	Fset       *token.FileSet
+	Pkgs       map[string]*packages.Package // by import path (module packages only)
+	Prog       *ssa.Program
+	SSAPkgs    map[string]*ssa.Package
+	Funcs      []*ssa.Function          // every function of the module (methods, closures, instances), minus package mock
+	byName     map[string]*ssa.Function // short name -> function
+	parents    map[*ssa.Function]*ssa.MakeClosure
+	vtaGraph   *callgraph.Graph
+	chaGraph   *callgraph.Graph
+	Excluded   []string
+	canonMemo  map[ssa.Value]string
+	fnInfos    map[*ssa.Function]*fnInfo
 	sharing    map[string]bool
 	sharedRuns map[string]*Report
 }
